@@ -350,6 +350,29 @@ def _ranges(xs):
 def dispatch_table(prog, pa):
     """type code -> (decoder class name, asn4 argument text, line) from the if/elif chain."""
     out = {}
+    # table dispatch: `if type_code in TABLE: TABLE[type_code].parse(value=...)` with TABLE = {code: Class}
+    for n in ast.walk(pa.node):
+        if isinstance(n, ast.If) and isinstance(n.test, ast.Compare) and src_of(n.test.left) == 'type_code' \
+                and isinstance(n.test.ops[0], ast.In) and isinstance(n.test.comparators[0], ast.Name):
+            tname = n.test.comparators[0].id
+            texpr = pa.module.assigns.get(tname)
+            if texpr is None:
+                for a_ in ast.walk(pa.node):
+                    if isinstance(a_, ast.Assign) and any(isinstance(t_, ast.Name) and t_.id == tname for t_ in a_.targets):
+                        texpr = a_.value
+            uses = [c for c in ast.walk(ast.Module(body=n.body, type_ignores=[]))
+                    if isinstance(c, ast.Call) and isinstance(c.func, ast.Attribute) and c.func.attr in ('parse', 'unpack')
+                    and isinstance(c.func.value, ast.Subscript) and src_of(c.func.value.value) == tname]
+            if isinstance(texpr, ast.Dict) and uses:
+                for k_, v_ in zip(texpr.keys, texpr.values):
+                    code = prog.try_fold(k_, pa.module, pa.cls)
+                    if code is None:
+                        continue
+                    asn4 = None
+                    for kw in uses[0].keywords:
+                        if kw.arg == 'asn4':
+                            asn4 = src_of(kw.value)
+                    out.setdefault(code, (src_of(v_), asn4, n.lineno))
     for n in ast.walk(pa.node):
         if isinstance(n, ast.If) and isinstance(n.test, ast.Compare) and src_of(n.test.left) == 'type_code' \
                 and isinstance(n.test.ops[0], ast.Eq):
